@@ -424,6 +424,21 @@ class SelfObj(Record):
     """the object whose method is interpreted: the fields the rule fixes (and those the interpreted code stores); any other attribute is an uninterpreted value."""
 
 
+class _LazySeq:
+    """the value of map(<function reference>, ...): a one-pass iterator whose elements are computed when they are asked for (as Python's lazy map does) - a loop that rejects at
+    element i never evaluates element i+1; list(...) / sorted(...) / a comprehension consume it whole."""
+    __slots__ = ("gen",)
+
+    def __init__(self, gen):
+        self.gen = gen
+
+    def __iter__(self):
+        return self
+
+    def __next__(self):
+        return next(self.gen)
+
+
 class Rejected(CannotEval):
     """the interpreted statements reject the representative input (raise / a definite Python error) before the point of interest is reached."""
 
@@ -445,7 +460,7 @@ _MUTATORS = {"add", "update", "append", "extend", "insert", "setdefault", "pop",
              "symmetric_difference_update", "popitem", "appendleft", "extendleft"}
 _PURE_METHODS = {"get", "keys", "values", "items", "copy", "count", "index", "union", "intersection", "difference", "symmetric_difference", "issubset", "issuperset", "isdisjoint",
                  "most_common", "elements", "join", "format", "lower", "upper", "isupper", "islower", "isdigit", "isalpha", "strip", "lstrip", "rstrip", "split", "startswith", "endswith", "replace", "title", "casefold",
-                 "capitalize", "swapcase", "rsplit", "splitlines", "partition", "rpartition", "removeprefix", "removesuffix", "isalnum", "isspace", "istitle", "find", "rfind", "zfill"}
+                 "capitalize", "swapcase", "rsplit", "splitlines", "partition", "rpartition", "removeprefix", "removesuffix", "isalnum", "isspace", "istitle", "find", "rfind", "zfill", "__contains__"}
 _SIM_TYPES = {"dict": dict, "list": list, "str": str, "bytes": bytes, "int": int, "float": float, "tuple": tuple, "set": set, "bool": bool}
 
 
@@ -462,6 +477,8 @@ def _sim_builtins(sim):
             "map": lambda f, *a: [f(*p) for p in zip(*[sim.items(x) for x in a])], "iter": lambda x: iter(sim.items(x)), "next": next, "getattr": sim._getattr,
             "collections.Counter": _c.Counter, "Counter": _c.Counter, "collections.OrderedDict": _c.OrderedDict, "OrderedDict": _c.OrderedDict,
             "collections.defaultdict": _c.defaultdict, "defaultdict": _c.defaultdict, "collections.deque": _c.deque, "deque": _c.deque,
+            "itertools.filterfalse": lambda f, x: [v for v in sim.items(x) if not sim.truth(f(v) if f else v)],
+            "itertools.chain": lambda *a: [v for x in a for v in sim.items(x)], "itertools.chain.from_iterable": lambda a: [v for x in sim.items(a) for v in sim.items(x)],
             "re.sub": re.sub, "re.findall": re.findall, "re.split": re.split, "types.MappingProxyType": dict, "MappingProxyType": dict}  # pure functions of texts (an uninterpreted argument makes the result uninterpreted, see call())
 
 
@@ -490,7 +507,9 @@ class Sim:
             return sorted(v, key=repr)
         if isinstance(v, EnumCls):
             return v.model.iteration()
-        if isinstance(v, (list, tuple, dict, str)) or type(v).__name__ in ("Counter", "OrderedDict", "defaultdict", "deque", "dict_keys", "dict_values", "dict_items", "list_iterator"):
+        if isinstance(v, Record) and isinstance(v.fields.get("__iter__"), list):
+            return list(v.fields["__iter__"])  # an object of the model whose iteration the rule fixes (a schedule element yields its leaf tasks)
+        if isinstance(v, (list, tuple, dict, str, _LazySeq)) or type(v).__name__ in ("Counter", "OrderedDict", "defaultdict", "deque", "dict_keys", "dict_values", "dict_items", "list_iterator"):
             return list(v)
         raise CannotEval(f"iteration over {type(v).__name__} {v!r}"[:80])
 
@@ -550,6 +569,8 @@ class Sim:
                 if v.sig[0] == "free" and e.attr in self.enums and v.sig[1] != "self":
                     return self.enums[e.attr].cls  # <module alias>.<Enum class>
                 return Opaque("attr", v, e.attr)
+            if type(v) in (list, dict, tuple, set, frozenset, str) and e.attr in _PURE_METHODS and hasattr(v, e.attr):
+                return getattr(v, e.attr)  # a bound pure method of a container / text handed on as a function (filter(known.__contains__, names))
             raise CannotEval(f"attribute {u(e)[:50]} of a {type(v).__name__}")
         if isinstance(e, ast.Subscript):
             v = self.ev(e.value, env)
@@ -685,6 +706,13 @@ class Sim:
                     return isinstance(op, (ast.IsNot, ast.NotEq))
                 if other is not None or free:
                     raise CannotEval(f"{u(e)[:50]}: comparison of an uninterpreted value with {other!r}")
+                root = opq
+                while root.sig[0] in ("attr", "item") and isinstance(root.sig[1], Opaque):
+                    root = root.sig[1]
+                if root.sig[0] == "call" and not (isinstance(root.sig[1], Opaque) and root.sig[1].sig[0] in ("attr", "free")):
+                    # (an attribute of) what a call returned whose callee is itself uninterpreted (the result of another call, a builtin applied to an uninterpreted value):
+                    # neither a parser of the reader nor a constructor / function of a module - nothing is known about it, not even that it is not None
+                    raise CannotEval(f"{u(e)[:50]}: comparison of the result of an uninterpreted callable with None")
             r = (a == b) if (oa or ob or isinstance(op, (ast.Eq, ast.NotEq))) else (a is b)
             return r if isinstance(op, (ast.Is, ast.Eq)) else not r
         if isinstance(op, (ast.In, ast.NotIn)):
@@ -718,6 +746,43 @@ class Sim:
             if len(e.args) == 2:
                 return self.ev(e.args[1], env)
             raise _Sig("error", f"StopIteration in {u(e)[:50]}", e, "StopIteration")
+        if d == "map" and "map" not in env and len(e.args) >= 2 and not e.keywords and isinstance(e.args[0], (ast.Attribute, ast.Name)):
+            # map(<function reference>, xs, ...): element by element the CALL <function reference>(x, ...) - interpreted exactly like the call written out (hook, helper of the
+            # class entered or left uninterpreted, builtin), and lazily: each call happens when the loop asks for that element
+            seqs = [self.items(self.ev(a, env)) for a in e.args[1:]]
+            names = [f"__map_arg{i}" for i in range(len(seqs))]
+            node = ast.Call(func=e.args[0], args=[ast.Name(id=n_, ctx=ast.Load()) for n_ in names], keywords=[])
+            for x in [node] + node.args:
+                ast.copy_location(x, e)
+            return _LazySeq(self.call(node, {**env, **dict(zip(names, p))}) for p in zip(*seqs))
+        if d == "map" and "map" not in env and len(e.args) >= 2 and not e.keywords and isinstance(e.args[0], ast.Lambda) and not any(isinstance(a, ast.Starred) for a in e.args):
+            fn = self.ev(e.args[0], env)  # map(lambda ...: ..., xs): lazy as well
+            seqs = [self.items(self.ev(a, env)) for a in e.args[1:]]
+            return _LazySeq(fn(*p) for p in zip(*seqs))
+        if d in ("functools.partial", "partial") and d.split(".")[0] not in env and e.args and isinstance(e.args[0], (ast.Attribute, ast.Name)) \
+                and not any(isinstance(a, ast.Starred) for a in e.args) and not any(k.arg is None for k in e.keywords):
+            # partial(<function reference>, a, k=v): a callable; calling it is the CALL <function reference>(a, ..., k=v, ...) interpreted like the call written out
+            bound_a = [self.ev(a, env) for a in e.args[1:]]
+            bound_k = {k.arg: self.ev(k.value, env) for k in e.keywords}
+            fref, at = e.args[0], e
+
+            def _partial(*more, **more_k):
+                vals = list(bound_a) + list(more)
+                kws = {**bound_k, **more_k}
+                env2 = {**env, **{f"__partial_arg{i}": v for i, v in enumerate(vals)}, **{f"__partial_kw_{k}": v for k, v in kws.items()}}
+                node = ast.Call(func=fref, args=[ast.Name(id=f"__partial_arg{i}", ctx=ast.Load()) for i in range(len(vals))],
+                                keywords=[ast.keyword(arg=k, value=ast.Name(id=f"__partial_kw_{k}", ctx=ast.Load())) for k in kws])
+                for x in [node] + node.args + node.keywords + [k.value for k in node.keywords]:
+                    ast.copy_location(x, at)
+                return self.call(node, env2)
+
+            return _partial
+        if d == "filter" and "filter" not in env and len(e.args) == 2 and not e.keywords and isinstance(e.args[0], (ast.Attribute, ast.Name)):
+            # filter(<function reference>, xs): the elements for which the CALL <function reference>(x) is true (the call interpreted like the call written out)
+            node = ast.Call(func=e.args[0], args=[ast.Name(id="__filter_arg", ctx=ast.Load())], keywords=[])
+            for x in [node] + node.args:
+                ast.copy_location(x, e)
+            return _LazySeq(v for v in self.items(self.ev(e.args[1], env)) if self.truth(self.call(node, {**env, "__filter_arg": v})))
         args = [self.ev(a, env) for a in e.args]
         kwargs = {k.arg: self.ev(k.value, env) for k in e.keywords}
         if d in self.builtins and d.split(".")[0] not in env:
@@ -802,8 +867,10 @@ class Sim:
                 kwargs[k.arg] = v
         return args, kwargs
 
-    def apply(self, func, args, kwargs, extra=None, what="call", skip_first=True):
-        """interpret the whole body of `func` for argument VALUES; the first parameter is not filled from args when it is called self / cls or is bound in `extra`."""
+    def apply(self, func, args, kwargs, extra=None, what="call", skip_first=True, tolerant=False):
+        """interpret the whole body of `func` for argument VALUES; the first parameter is not filled from args when it is called self / cls or is bound in `extra`.
+        tolerant (a constructor whose object is a Record): a top-level `self.<attr> = <expr>` that cannot be interpreted leaves that attribute uninterpreted (nothing is known
+        about it, not even that it is not None) instead of giving up on the whole object."""
         if self.depth >= 4:
             raise CannotEval("call depth")
         a = func.args
@@ -829,7 +896,18 @@ class Sim:
             raise CannotEval(f"{what}: no argument for {missing}")
         self.depth += 1
         try:
-            self.run(func.body, new, None)
+            if not tolerant:
+                self.run(func.body, new, None)
+            for st in (func.body if tolerant else ()):
+                saved = self.steps
+                try:
+                    self.exec(st, new, None)
+                except CannotEval:
+                    t = st.targets[0] if isinstance(st, ast.Assign) and len(st.targets) == 1 else (st.target if isinstance(st, ast.AnnAssign) else None)
+                    if not (isinstance(t, ast.Attribute) and isinstance(t.value, ast.Name) and isinstance(new.get(t.value.id), Record)):
+                        raise
+                    self.steps = saved
+                    new[t.value.id].fields[t.attr] = Opaque("call", "attribute-not-interpreted", what, t.attr)
         except _Sig as s:
             if s.kind == "return":
                 return s.value
@@ -917,7 +995,8 @@ class Sim:
             self.run(s.body if self.truth(self.ev(s.test, env)) else s.orelse, env, keep)
         elif isinstance(s, ast.For):
             broke = False
-            for v in self.items(self.ev(s.iter, env)):
+            seq = self.ev(s.iter, env)
+            for v in (seq if isinstance(seq, _LazySeq) else self.items(seq)):
                 self.assign(s.target, v, env)
                 try:
                     self.run(s.body, env, keep)
@@ -962,6 +1041,9 @@ class Sim:
             raise _Sig("continue", None, s)
         elif isinstance(s, (ast.Pass, ast.Import, ast.ImportFrom, ast.Assert, ast.Global, ast.Nonlocal)):
             pass
+        elif isinstance(s, ast.FunctionDef) and not s.decorator_list and not any(isinstance(x, (ast.Yield, ast.YieldFrom, ast.Nonlocal, ast.Global)) for x in ast.walk(s)):
+            # a local helper function (closure): a callable whose body is interpreted on the enclosing environment as it is when the call happens
+            env[s.name] = lambda *a, _f=s, _env=env, **k: self.apply(_f, list(a), k, dict(_env), f"{_f.name}(...)", skip_first=False)
         elif isinstance(s, ast.Try):
             try:
                 self.run(s.body, env, keep)
@@ -1180,6 +1262,11 @@ def slice_before(pre, live, keep, inputs=()):
     for s in reversed(pre):
         if _is_compound(s):
             if isinstance(s, (ast.FunctionDef, ast.AsyncFunctionDef, ast.ClassDef)):
+                if isinstance(s, ast.FunctionDef) and s.name in live:
+                    # a local helper function that the live names are computed with: kept (the interpreter binds it as a callable), what its body reads is live too
+                    keep.add(id(s))
+                    live.discard(s.name)
+                    live |= (_loads(s) - set(params_of(s))) - set(inputs)
                 continue
             inner_defs = set().union(*[_defs(x)[0] for x in _sub_stmts(s) if not _is_compound(x)] or [set()])
             inner_defs |= {x.id for f_ in _sub_stmts(s) if isinstance(f_, (ast.For, ast.AsyncFor)) for x in ast.walk(f_.target) if isinstance(x, ast.Name)}
@@ -1211,8 +1298,10 @@ def run(chk):
         "Documents parameter and attribute of that meaning (parallel defaults end to end, completed-by flags, schedule and sub-task order, dispatch on 'parallel', corpus-level defaults "
         "for 0 / 1 / 2 indices and data streams); _error raises on every path; TrackFileReader.read is interpreted on twelve specifications (version window, not-yet-validated version "
         "values, schema failure, validate-before-build of the same object, reserved / unused parameters between building and returning); parse_task over 40 field combinations rejects "
-        "exactly the documented mixes; duplicate task / challenge / operation / corpus names by interpreting the loop around the rejecting site on collections with and without a repeated "
-        "name; default-challenge, ramp-up-on-parallel, completed-by and indices-vs-data-streams rules as value tables; the accounting object and the reserved names interpreted; every "
+        "exactly the documented mixes; duplicate task / challenge / operation / corpus names by interpreting the loop around the rejecting site (where no loop around it can be interpreted on "
+        "its own - names counted or compared by size, while loops, flattened iteration - the whole function end to end) on collections with and without a repeated "
+        "name; lazy map(...) / filter(...) over function references, functools.partial, local helper functions and pure helper functions of the module are interpreted like the "
+        "call written in place; default-challenge, ramp-up-on-parallel, completed-by and indices-vs-data-streams rules as value tables; the accounting object and the reserved names interpreted; every "
         "rendered template registers its variables first (CFG, helpers followed); nested includes resolve relative to the including file. Extracted constants: documented "
         "operation-parameter values validated against the item schema of the operations block; the include pattern of TemplateSource matched against the spellings of the collect helper "
         "call and of {% include %}; the helpers' Jinja source evaluated and parsed."
@@ -1257,6 +1346,32 @@ def run(chk):
     # (a helper that hands the message on to another function of the class / module that never returns normally counts as well)
     raising = {n_ for n_, f_ in sr_methods.items() if len(stmts_of(f_.body)) <= 3 and not raised_classes(f_)[0]}
     raising_funcs = {n_ for n_, f_ in ldr_funcs.items() if len(stmts_of(f_.body)) <= 3 and not raised_classes(f_)[0]}
+    # role: a pure helper is a function of the module that computes its result from its arguments alone: no decorator, no * / ** parameters, no yield / global, and every call in it
+    # is a builtin the interpreter knows or a method of a value rooted in one of its own parameters / locals (or of a text literal). A call of one is interpreted like the
+    # expression written in place (an extracted `_count_defined(alternatives)`); everything else of the module (I/O, template rendering) stays uninterpreted.
+    def _is_pure(f_):
+        if f_.decorator_list or f_.args.vararg or f_.args.kwarg or isinstance(f_, ast.AsyncFunctionDef):
+            return False
+        bound = set(params_of(f_)) | {x.id for n in walk_body(f_) for x in ast.walk(n) if isinstance(x, ast.Name) and isinstance(x.ctx, ast.Store)}
+        known = Sim().builtins
+        for n in walk_body(f_):
+            if isinstance(n, (ast.Yield, ast.YieldFrom, ast.Global, ast.Nonlocal, ast.Await, ast.FunctionDef, ast.AsyncFunctionDef, ast.ClassDef, ast.Lambda)):
+                return False
+            if isinstance(n, ast.Call):
+                d_ = dotted(n.func)
+                if d_ in known and d_.split(".")[0] not in bound:
+                    continue
+                if d_ == "isinstance" and len(n.args) == 2 and dotted(n.args[1]) in _SIM_TYPES:
+                    continue
+                base = n.func
+                while isinstance(base, (ast.Attribute, ast.Subscript)):
+                    base = base.value
+                if isinstance(n.func, ast.Attribute) and ((isinstance(base, ast.Name) and base.id in bound) or (isinstance(base, ast.Constant) and isinstance(base.value, str))):
+                    continue
+                return False
+        return True
+
+    pure_funcs = {n_ for n_, f_ in ldr_funcs.items() if n_ not in raising_funcs and _is_pure(f_)}
     # role: the key reader is the method of the class that is called most often as self.<m>(<spec>, "<literal key>", ...)
     n_reads = {}
     for f_ in sr_methods.values():
@@ -1275,10 +1390,11 @@ def run(chk):
     rd_default = next((n.value.id for n in walk_body(reader) if isinstance(n, ast.Return) and isinstance(n.value, ast.Name) and n.value.id in rd_params[2:]), None)
     rd_mandatory = next((x.id for n in walk_body(reader) if isinstance(n, ast.If) for x in ast.walk(n.test) if isinstance(x, ast.Name) and x.id in rd_params[2:] and x.id != rd_default), None)
 
-    def loader_hook(reads=None, observe=(), override=None, expand=None, oracle=None):
+    def loader_hook(reads=None, observe=(), override=None, expand=None, oracle=None, strict=()):
         """how the interpreter treats calls on the reader: an error helper raises; self._r(<dict>, key, ...) is the documented lookup (value / default / error when mandatory);
         self._r(<anything else>, key) for a key in `reads` yields the supplied value (role: "what the file says under that key"); calls of the methods in `observe` stay
-        uninterpreted (their results are what the rule looks at); any other method of the class is interpreted (an extracted helper), uninterpreted if that fails."""
+        uninterpreted (their results are what the rule looks at); any other method of the class is interpreted (an extracted helper), uninterpreted if that fails - unless it
+        is named in `strict` (the verdict of the caller depends on the OBJECT it returns: a failure there is "not recognised", never a value to go on with)."""
         def hook(e, env, sim):
             if override and id(e) in override:
                 return override[id(e)]
@@ -1287,6 +1403,14 @@ def run(chk):
                 return oracle[last_attr(f)]  # a function of another module whose answer the rule fixes for this run (e.g. io.is_archive)
             if isinstance(f, ast.Name) and f.id in raising_funcs and f.id not in env:
                 raise _Sig("raise", None, e)  # an error helper written as a function of the module
+            if isinstance(f, ast.Name) and f.id in pure_funcs and f.id not in env and f.id not in observe:
+                saved = sim.steps
+                try:
+                    args_, kwargs_ = sim.arguments(e, env)
+                    return sim.apply(ldr_funcs[f.id], args_, kwargs_, None, u(e)[:50], skip_first=False)
+                except CannotEval:
+                    sim.steps = saved
+                    return NotImplemented
             if not (isinstance(f, ast.Attribute) and isinstance(f.value, ast.Name) and f.value.id == "self" and ("self" not in env or isinstance(env["self"], SelfObj))):
                 return NotImplemented
             if f.attr in raising:
@@ -1312,6 +1436,8 @@ def run(chk):
                 try:
                     return sim.invoke(sr_methods[f.attr], e, env, extra={"self": env["self"]} if "self" in env else None)
                 except CannotEval:
+                    if f.attr in strict:
+                        raise
                     sim.steps = saved
                     return NotImplemented
             return NotImplemented
@@ -1326,6 +1452,14 @@ def run(chk):
         slice_before(pre, _loads(expr), keep)
         try:
             kind, val, _ = simulate(pre, {}, keep, hook=loader_hook(reads, observe), then=expr)
+            if isinstance(val, _LazySeq):
+                # a lazy map(...) handed on as it is: a one-pass iterator. If a statement on the way reads the same local (a loop over it would use it up: the slice above
+                # only follows what BINDS or MUTATES a name), what arrives is not decided here
+                last_bind = max([i_ for i_, s_ in enumerate(pre) if isinstance(expr, ast.Name) and expr.id in _defs(s_)[0] and id(s_) in keep] or [-1])
+                if not isinstance(expr, ast.Name) or any(isinstance(x, ast.Name) and x.id == expr.id and isinstance(x.ctx, ast.Load) for s_ in pre[last_bind + 1:] for x in ast.walk(s_)):
+                    chk.unknown(rule, f"{what} is a lazy iterator (map(...)) that other statements read before it is handed on: what is left of it is not decided", site)
+                    return None
+                val = list(val)
         except CannotEval as e:
             chk.unknown(rule, f"{what} cannot be interpreted on a representative specification: {e}", site)
             return None
@@ -1717,15 +1851,19 @@ def run(chk):
             raise (Rejected(msg, kind, node) if kind in ("raise", "error") else CannotEval(msg))
         return val
 
-    def full_hook(observe, oracle=None, model=()):
+    def full_hook(observe, oracle=None, model=(), strict=()):
         """like loader_hook, and the constructors of the model classes in `model` [(class, __init__)] are interpreted too: the object is a Record with the attributes __init__ stores."""
-        base = loader_hook(observe=observe, oracle=oracle)
+        base = loader_hook(observe=observe, oracle=oracle, strict=strict)
 
         def hook(e, env_, sim):
-            for cls_node, init in model:
+            for cls_node, init, *opts in model:
                 if last_attr(e.func) == cls_node.name and (dotted(e.func) or "").split(".")[0] in ("track", cls_node.name):
                     obj = Record()
-                    sim.invoke(init, e, env_, extra={params_of(init)[0]: obj})
+                    if opts and opts[0] == "tolerant":
+                        args_, kwargs_ = sim.arguments(e, env_)
+                        sim.apply(init, args_, kwargs_, {params_of(init)[0]: obj}, u(e)[:50], tolerant=True)
+                    else:
+                        sim.invoke(init, e, env_, extra={params_of(init)[0]: obj})
                     return obj
             return base(e, env_, sim)
 
@@ -2304,7 +2442,7 @@ def run(chk):
             override_id = id(it)
             bindings = [inputs]
         else:
-            inputs = {n_ for n_ in _loads(it) if n_ not in Sim().builtins and n_ != "collections"}
+            inputs = {n_ for n_ in _loads(it) if n_ not in Sim().builtins and n_ not in ("collections", "itertools")}
             if not inputs:
                 raise CannotEval(f"the collection the loop at line {L.lineno} runs over is not computed from a name: {short(it, 50)}")
             bindings = [{n_} for n_ in sorted(inputs)]
@@ -2339,10 +2477,12 @@ def run(chk):
             raise CannotEval("; ".join(errors)[:200])
         return out
 
-    def dedupe(func, words, hint, cases, stop=()):
+    def dedupe(func, words, hint, cases, stop=(), whole=None):
         """duplicate names are rejected — decided on VALUES: the loop around the rejecting site is interpreted on a collection without and with a repeated name (cases); it must
         run through on the former and reject on the latter, whatever container / membership idiom it uses (set + in, dict, setdefault, Counter, comparing lengths, ...).
-        -> (site, loop, function) that was decided, or None."""
+        Where no loop around the site can be interpreted (no loop at all: the names are counted / compared by size first; a while loop; a flattened iteration), `whole(collection)`
+        interprets the FUNCTION end to end on a specification built from the same collections (-> outcome kind).
+        -> (site, loop or None, function) that was decided, or None."""
         fs = closure(func, stop)
         sites = reject_sites(fs, words)
         if not sites:
@@ -2368,6 +2508,17 @@ def run(chk):
                         verdicts.append((site, L, f, rows_))
                 except CannotEval as e:
                     errors.append(f"loop at line {L.lineno}: {e}")
+        if not verdicts and whole is not None:
+            try:
+                rows_ = []
+                for label, make, must in cases:
+                    kind = whole(make())
+                    if kind not in ("raise", "return", "fallthrough"):
+                        raise CannotEval(f"on the collection `{label}` the interpretation of {func.name} ends in `{kind}`")
+                    rows_.append((label, must, kind))
+                verdicts.append((sites[0], None, func, rows_))
+            except CannotEval as e:
+                errors.append(f"{func.name} as a whole: {e}")
         good = [v for v in verdicts if all((k_ == "raise") == must for _, must, k_ in v[3])]
         if not verdicts:
             chk.unknown("O10.5", f"the loop around the rejecting site for duplicate {hint} names cannot be interpreted on a representative collection: {'; '.join(errors)[:300]}", sites[0])
@@ -2375,7 +2526,7 @@ def run(chk):
         site, L, f, rows = (good or verdicts)[0]
         wrong = [f"{label}: {'rejected' if k_ == 'raise' else 'accepted'} (must be {'rejected' if must else 'accepted'})" for label, must, k_ in rows if (k_ == "raise") != must]
         chk.ob("O10.5", f"duplicate {hint} names rejected (dedupe idiom)", bool(good), site,
-               f"loop at line {L.lineno} interpreted on {len(rows)} collection(s): " + ("rejects exactly the ones with a repeated name" if good else "; ".join(wrong)), key=f"{_L}:{func.name}:dedupe:{hint}")
+               (f"loop at line {L.lineno}" if L is not None else f"{f.name} as a whole (no loop around the site could be interpreted on its own)") + f" interpreted on {len(rows)} collection(s): " + ("rejects exactly the ones with a repeated name" if good else "; ".join(wrong)), key=f"{_L}:{func.name}:dedupe:{hint}")
         return (site, L, f) if good else None
 
     def flat_cases():
@@ -2388,8 +2539,57 @@ def run(chk):
         return [("[a], [b, c]", lambda: [[t("aa")], [t("bb"), t("cc")]], False), ("[a], [b, a] (same name in a later element)", lambda: [[t("aa")], [t("bb"), t("aa")]], True),
                 ("[a], [b, b] (same name twice inside one parallel element)", lambda: [[t("aa")], [t("bb"), t("bb")]], True), ("[a], [a]", lambda: [[t("aa")], [t("aa")]], True)]
 
-    found = dedupe(cc, ("multiple tasks with the name", "unique"), "task", task_cases(), stop=roles)
-    if found is not None:
+    # the same collections as whole specifications, for the functions interpreted end to end (fallback of dedupe)
+    def is_parse_parallel(e):
+        return isinstance(e.func, ast.Attribute) and isinstance(e.func.value, ast.Name) and e.func.value.id == "self" and e.func.attr == pp.name
+
+    def outcome_of(func, values, hook, consts=None):
+        kind, _, _node = simulate(func.body, call_env(func, {**values, "self": SelfObj()}), None, hook, consts=consts)
+        return kind
+
+    CH = trk.cls("Challenge")
+    challenge_model = [(CH, method(trk, CH, "__init__"), "tolerant")]
+
+    def whole_tasks(coll):
+        """_create_challenges on one challenge whose schedule has a plain task per one-element group and a parallel element per larger group; what parse_task / parse_parallel are
+        CALLED WITH decides the element they yield: an object that iterates over its leaf tasks (Task yields itself, Parallel its tasks), named as the file says."""
+        def spec_of(t_):
+            return {"operation": "op-1", "name": t_.fields["name"]}
+
+        sched = [spec_of(g_[0]) if len(g_) == 1 else {"parallel": {"tasks": [spec_of(t_) for t_ in g_]}} for g_ in coll]
+        base = full_hook(observe_all - {cc.name}, model=challenge_model)
+
+        def hook(e, env_, sim):
+            if is_parse_task(e) or is_parse_parallel(e):
+                fn = pt if is_parse_task(e) else pp
+                spec_e = bind_args(e, fn).get(params_of(fn)[1])
+                v = sim.ev(spec_e, env_) if spec_e is not None else None
+                if fn is pt and isinstance(v, dict) and isinstance(v.get("name"), str):
+                    return Record(name=v["name"], __iter__=[Record(name=v["name"])])
+                if fn is pp and isinstance(v, dict) and isinstance(v.get("tasks"), list) and all(isinstance(t_, dict) and isinstance(t_.get("name"), str) for t_ in v["tasks"]):
+                    return Record(tasks=[Record(name=t_["name"]) for t_ in v["tasks"]], __iter__=[Record(name=t_["name"]) for t_ in v["tasks"]])
+                raise CannotEval(f"{u(e)[:50]} is not called with an element of the schedule written in the file")
+            return base(e, env_, sim)
+
+        return outcome_of(cc, {params_of(cc)[1]: {"challenges": [{"name": "c1", "default": True, "schedule": sched}]}}, hook)
+
+    def whole_challenges(coll):
+        return outcome_of(cc, {params_of(cc)[1]: {"challenges": [{**el, "schedule": [], **({"default": True} if i_ == 0 else {})} for i_, el in enumerate(coll)]}}, full_hook(observe_all - {cc.name}, model=challenge_model))
+
+    def whole_operations(coll):
+        po = method(ldr, SR, "parse_operations")
+        return outcome_of(po, {params_of(po)[1]: [{**el, "operation-type": "bulk"} for el in coll]}, full_hook(observe_all - {po.name}))
+
+    def whole_corpora(coll):
+        docs = [{"source-file": "docs-marker.json.bz2", "document-count": 1001, "target-index": "idx"}]
+        return outcome_of(cr, {params_of(cr)[1]: [{**el, "documents": [dict(d_) for d_ in docs]} for el in coll], params_of(cr)[2]: [], params_of(cr)[3]: []},
+                          full_hook(observe_all - {cr.name}, oracle={"is_archive": True}), consts=track_consts)
+
+    found = dedupe(cc, ("multiple tasks with the name", "unique"), "task", task_cases(), stop=roles, whole=whole_tasks)
+    if found is not None and found[1] is None:
+        chk.ob("O10.5", "duplicate task names are looked for in the schedule that is handed to the challenge", True, found[0],
+               "decided end to end: the tasks of the schedule written in the file (plain and inside parallel elements, as parse_task / parse_parallel are called with them) reach the check")
+    elif found is not None:
         # ... and it is the schedule handed to the challenge that is looked at (data flow: the collection the loop runs over is that local, directly or as the argument of the helper)
         site, L, f = found
         src = L.iter
@@ -2405,19 +2605,29 @@ def run(chk):
         except (CannotEval, _Sig):
             val = None
         if not isinstance(val, (list, tuple)) or any(isinstance(x, Opaque) and x.sig[0] == "free" for x in val):
-            chk.unknown("O10.5", f"cannot relate the collection checked for duplicate task names ({short(L.iter, 40)}) to the schedule handed to Challenge(...)", L)
+            # the loop does not run over the schedule local element by element (a flattened view of it, a list computed from it, ...): decided end to end instead
+            try:
+                rows_ = [(label, must, whole_tasks(make())) for label, make, must in task_cases()]
+                wrong = [f"{label}: {'rejected' if k_ == 'raise' else 'accepted'} (must be {'rejected' if must else 'accepted'})" for label, must, k_ in rows_ if (k_ == "raise") != must]
+                if any(k_ not in ("raise", "return", "fallthrough") for _, _, k_ in rows_):
+                    raise CannotEval(f"{cc.name} ends in {[k_ for _, _, k_ in rows_]}")
+                chk.ob("O10.5", "duplicate task names are looked for in the schedule that is handed to the challenge", not wrong, L,
+                       f"checked: `{short(L.iter, 40)}`; decided end to end on {len(rows_)} schedule(s) written in the file" + ("" if not wrong else ": " + "; ".join(wrong))[:300])
+            except CannotEval as e:
+                chk.unknown("O10.5", f"cannot relate the collection checked for duplicate task names ({short(L.iter, 40)}) to the schedule handed to Challenge(...): {e}"[:300], L)
         else:
             chk.ob("O10.5", "duplicate task names are looked for in the schedule that is handed to the challenge", list(val) == probe, L,
                    f"checked: `{short(src, 40)}`; handed to the challenge: `{sched_local}`" + ("" if list(val) == probe else f" — for a schedule of three elements only {len(val)} of them are checked / in another order"))
-    dedupe(cc, ("duplicate", "challenge"), "challenge", flat_cases(), stop=roles)
-    dedupe(method(ldr, SR, "parse_operations"), ("duplicate", "operation"), "operation", flat_cases(), stop=roles)
-    dedupe(cr, ("duplicate", "corpus"), "corpus", flat_cases(), stop=roles)
+    dedupe(cc, ("duplicate", "challenge"), "challenge", flat_cases(), stop=roles, whole=whole_challenges)
+    dedupe(method(ldr, SR, "parse_operations"), ("duplicate", "operation"), "operation", flat_cases(), stop=roles, whole=whole_operations)
+    dedupe(cr, ("duplicate", "corpus"), "corpus", flat_cases(), stop=roles, whole=whole_corpora)
     # default challenge rules — value table: _create_challenges is interpreted as a whole (helpers of the class entered, Challenge(...) / parse_* results uninterpreted) on a
     # concrete track specification per row (schedules left empty: they play no part here); it either rejects or returns the challenges
     def challenges_outcome(specs):
         spec = {"challenges": [{"name": n_, "schedule": [], **({"default": d_} if d_ is not None else {})} for n_, d_ in specs]}
         env = call_env(cc, {params_of(cc)[1]: spec, "self": SelfObj()})
-        kind, val, node = simulate(cc.body, env, None, full_hook(observe_all - {cc.name}))
+        # (the challenges are objects with the attributes Challenge.__init__ stores, so that a rule written over `c.default` of the challenges built so far is decided as well)
+        kind, val, node = simulate(cc.body, env, None, full_hook(observe_all - {cc.name}, model=challenge_model))
         if kind not in ("raise", "return"):
             raise CannotEval(f"ends in `{kind}` at line {getattr(node, 'lineno', '?')}")
         if kind == "return" and not (isinstance(val, (list, tuple)) and len(val) == len(specs)):
@@ -2495,7 +2705,7 @@ def run(chk):
     # attributes the loader gives them) on a concrete element per row; it either rejects or returns the Parallel
     def parallel_outcome(par):
         kind, _, node = simulate(pp.body, call_env(pp, {pp_spec: par, **({pp_ops: {"op-1": op_entry}} if pp_ops else {}), "self": SelfObj()}), None,
-                                 full_hook(observe_all - {pt.name, pp.name}, model=task_model))
+                                 full_hook(observe_all - {pt.name, pp.name}, model=task_model, strict={pt.name}))
         if kind not in ("raise", "return"):
             raise CannotEval(f"ends in `{kind}` at line {getattr(node, 'lineno', '?')}")
         return kind == "raise"
@@ -2999,6 +3209,26 @@ _KW_TABLE = ("        inheritable = {\n            \"warmup_iterations\": (\"war
              "        inherited = {param: self._r(task_spec, key, error_ctx=op.name, mandatory=False, default_value=default) for param, (key, default) in inheritable.items()}\n"
              "        task = track.Task(\n            name=task_name,\n            operation=op,\n            **inherited,\n")
 
+_OPS_OLD = ("        ops = {}\n        for op_spec in ops_specs:\n            op = self.parse_operation(op_spec)\n            if op.name in ops:\n"
+            "                self._error(\"Duplicate operation with name '%s'.\" % op.name)\n            else:\n                ops[op.name] = op\n")
+_OPS_MAP = ("        ops: dict[str, track.Operation] = {}\n        for op in %s:\n            if op.name in ops:\n                self._error(\"Duplicate operation with name '%%s'.\" %% op.name)\n"
+            "            %s\n")
+_OPS_WHILE = ("        ops = {}\n        pending = list(ops_specs)\n        while pending:\n            op = self.parse_operation(pending.pop(0))\n            if op.name in ops:\n"
+              "                self._error(\"Duplicate operation with name '%%s'.\" %% op.name)\n            %s\n")
+_TASK_MSG = "\"Challenge '%s' contains multiple tasks with the name '%s'. Please use the task's name property to assign a unique name for each task.\""
+_TASK_DEDUPE = ("            for task in schedule:\n                for sub_task in task:\n                    if sub_task.name in known_task_names:\n                        self._error(\n"
+                "                            \"Challenge '%s' contains multiple tasks with the name '%s'. Please use the task's name property to \"\n"
+                "                            \"assign a unique name for each task.\" % (name, sub_task.name)\n                        )\n                    else:\n"
+                "                        known_task_names.add(sub_task.name)\n")
+_TASK_WHILE = ("            idx = 0\n            flat_tasks = [sub_task for task in schedule for sub_task in task]\n            while idx < len(flat_tasks):\n                sub_task = flat_tasks[idx]\n"
+               "                if sub_task.name in known_task_names:\n                    self._error(" + _TASK_MSG.replace("%", "%%") + " %% (name, sub_task.name))\n"
+               "                known_task_names.add(sub_task.name)\n                idx += %s\n")
+_SUBTASKS_OLD = ("        tasks = []\n        for task in self._r(ops_spec, \"tasks\", error_ctx=\"parallel\"):\n            tasks.append(\n                self.parse_task(\n                    task,\n"
+                 "                    ops,\n                    challenge_name,\n                    default_warmup_iterations,\n                    default_iterations,\n"
+                 "                    default_warmup_time_period,\n                    default_time_period,\n                    default_ramp_up_time_period,\n"
+                 "                    completed_by,\n                )\n            )\n")
+_COUNT_OLD = "count_defined = len(list(filter(lambda e: e is not None, [schedule, challenge, challenges])))"
+
 VARIANTS = [
     V("one registry arm dropped", "break", _T, "        elif v == \"bulk\":\n            return OperationType.Bulk\n", "", "O10.1"),
     V("duplicate literal", "break", _T, "        elif v == \"node-stats\":\n            return OperationType.NodeStats", "        elif v == \"index-stats\":\n            return OperationType.NodeStats", "O10.1"),
@@ -3340,4 +3570,75 @@ VARIANTS = [
      V("", "keep", _L, _KW_OLD, "")],
     [V("inheritable task keys read through a table whose defaults are swapped", "break", _L, "        task = track.Task(\n            name=task_name,\n            operation=op,\n", _KW_TABLE % ("default_iterations", "default_warmup_iterations"), "O10.2"),
      V("", "break", _L, _KW_OLD, "")],
+    # ---- hardening round 4 (benign/C10-b10 and further shapes): lazy map(...) over a method reference, the dedupe rules decided end to end where no loop around the check can be
+    # interpreted on its own (names counted / compared by size, while loops, flattened iteration), pure helper functions of the module entered ----
+    V("operations parsed through a lazy map(...) over the method, store after the always-raising error helper", "keep", _L, _OPS_OLD, _OPS_MAP % ("map(self.parse_operation, ops_specs)", "ops[op.name] = op")),
+    V("operations parsed through map(...), the table keyed by the operation type", "break", _L, _OPS_OLD, _OPS_MAP % ("map(self.parse_operation, ops_specs)", "ops[op.type] = op"), "O10.5"),
+    V("operations parsed through map(...) over a de-duplicated view of the specifications", "break", _L, _OPS_OLD, _OPS_MAP % ("map(self.parse_operation, {str(s): s for s in ops_specs}.values())", "ops[op.name] = op"), "O10.5"),
+    V("operations parsed in a while loop over a pending list", "keep", _L, _OPS_OLD, _OPS_WHILE % "ops[op.name] = op"),
+    V("operations parsed in a while loop over a pending list, the table keyed by position", "break", _L, _OPS_OLD, _OPS_WHILE % "ops[len(ops)] = op", "O10.5"),
+    V("operations table built by a comprehension, duplicates found by comparing sizes", "keep", _L, _OPS_OLD,
+      "        parsed = [self.parse_operation(s) for s in ops_specs]\n        ops = {op.name: op for op in parsed}\n        if len(ops) != len(parsed):\n"
+      "            self._error(\"Duplicate operation with name '%s'.\" % [op.name for op in parsed if parsed.count(op) > 1])\n"),
+    V("task names counted with collections.Counter", "keep", _L, _TASK_DEDUPE,
+      "            task_name_counts = collections.Counter(sub_task.name for task in schedule for sub_task in task)\n            for task_name, n in task_name_counts.items():\n"
+      "                if n > 1:\n                    self._error(" + _TASK_MSG + " % (name, task_name))\n"),
+    V("task names counted with collections.Counter, only names occurring three times reported", "break", _L, _TASK_DEDUPE,
+      "            task_name_counts = collections.Counter(sub_task.name for task in schedule for sub_task in task)\n            for task_name, n in task_name_counts.items():\n"
+      "                if n > 2:\n                    self._error(" + _TASK_MSG + " % (name, task_name))\n", "O10.5"),
+    V("task names compared by size (no loop around the check)", "keep", _L, _TASK_DEDUPE,
+      "            all_names = [sub_task.name for task in schedule for sub_task in task]\n            if len(all_names) != len(set(all_names)):\n"
+      "                self._error(" + _TASK_MSG + " % (name, next(n for n in all_names if all_names.count(n) > 1)))\n"),
+    V("task names compared by size, the first schedule element left out", "break", _L, _TASK_DEDUPE,
+      "            all_names = [sub_task.name for task in schedule[1:] for sub_task in task]\n            if len(all_names) != len(set(all_names)):\n"
+      "                self._error(" + _TASK_MSG + " % (name, next(n for n in all_names if all_names.count(n) > 1)))\n", "O10.5"),
+    V("task-name check over itertools.chain.from_iterable(schedule)", "keep", _L,
+      "            for task in schedule:\n                for sub_task in task:\n                    if sub_task.name in known_task_names:\n",
+      "            for sub_task in itertools.chain.from_iterable(schedule):\n                if sub_task.name:\n                    if sub_task.name in known_task_names:\n"),
+    V("task-name check over the flattened first schedule element only", "break", _L,
+      "            for task in schedule:\n                for sub_task in task:\n                    if sub_task.name in known_task_names:\n",
+      "            for sub_task in itertools.chain.from_iterable(schedule[:1]):\n                if sub_task.name:\n                    if sub_task.name in known_task_names:\n", "O10.5"),
+    V("task-name check in a while loop over the flattened schedule", "keep", _L, _TASK_DEDUPE, _TASK_WHILE % "1"),
+    V("task-name check in a while loop that looks at every second task", "break", _L, _TASK_DEDUPE, _TASK_WHILE % "2", "O10.5"),
+    [V("corpus names collected first and compared by size", "keep", _L, "        known_corpora_names = set()\n",
+       "        corpus_names = [self._r(c, \"name\") for c in corpora_specs]\n        if len(corpus_names) != len(set(corpus_names)):\n            self._error(\"Duplicate document corpus name [%s].\" % corpus_names)\n"),
+     V("", "keep", _L, "            if name in known_corpora_names:\n                self._error(\"Duplicate document corpus name [%s].\" % name)\n            known_corpora_names.add(name)\n", "")],
+    [V("corpus names collected first and compared with the size of the same list", "break", _L, "        known_corpora_names = set()\n",
+       "        corpus_names = [self._r(c, \"name\") for c in corpora_specs]\n        if len(corpus_names) != len(list(corpus_names)):\n            self._error(\"Duplicate document corpus name [%s].\" % corpus_names)\n", "O10.5"),
+     V("", "break", _L, "            if name in known_corpora_names:\n                self._error(\"Duplicate document corpus name [%s].\" % name)\n            known_corpora_names.add(name)\n", "")],
+    V("challenge alternatives counted with sum(...) over a generator", "keep", _L, _COUNT_OLD, "count_defined = sum(e is not None for e in (schedule, challenge, challenges))"),
+    V("challenge alternatives counted with sum(...), `challenges` left out", "break", _L, _COUNT_OLD, "count_defined = sum(e is not None for e in (schedule, challenge))", "O10.5"),
+    [V("challenge alternatives counted by a pure helper function of the module (filter over a function reference)", "keep", _L, _COUNT_OLD, "count_defined = _count_defined([schedule, challenge, challenges])"),
+     V("", "keep", _L, "class TrackSpecificationReader:\n",
+       "def _is_defined(alternative):\n    return alternative is not None\n\n\ndef _count_defined(alternatives):\n    return len(list(filter(_is_defined, alternatives)))\n\n\nclass TrackSpecificationReader:\n")],
+    [V("challenge alternatives counted by a helper function of the module that counts the undefined ones", "break", _L, _COUNT_OLD, "count_defined = _count_defined([schedule, challenge, challenges])", "O10.5"),
+     V("", "break", _L, "class TrackSpecificationReader:\n",
+       "def _is_defined(alternative):\n    return alternative is None\n\n\ndef _count_defined(alternatives):\n    return len(list(filter(_is_defined, alternatives)))\n\n\nclass TrackSpecificationReader:\n")],
+    V("no default challenge: decided from the challenges built so far with any(...)", "keep", _L, "        if challenges and default_challenge is None:\n", "        if challenges and not any(c.default for c in challenges):\n"),
+    V("no default challenge: any(...) over the selected flag instead of the default flag", "break", _L, "        if challenges and default_challenge is None:\n",
+      "        if challenges and not any(c.selected for c in challenges):\n", "O10.5"),
+    V("second default challenge: decided from the challenges built so far with any(...)", "keep", _L, "            if default and default_challenge is not None:\n",
+      "            if default and any(c.default for c in challenges):\n"),
+    V("sub-tasks parsed through functools.partial over the method", "keep", _L, _SUBTASKS_OLD,
+      "        parse = functools.partial(self.parse_task, ops=ops, challenge_name=challenge_name, default_warmup_iterations=default_warmup_iterations, default_iterations=default_iterations,\n"
+      "                                  default_warmup_time_period=default_warmup_time_period, default_time_period=default_time_period,\n"
+      "                                  default_ramp_up_time_period=default_ramp_up_time_period, completed_by_name=completed_by)\n"
+      "        tasks = [parse(t) for t in self._r(ops_spec, \"tasks\", error_ctx=\"parallel\")]\n"),
+    V("sub-tasks parsed through functools.partial that binds the iterations default to the warm-up parameter", "break", _L, _SUBTASKS_OLD,
+      "        parse = functools.partial(self.parse_task, ops=ops, challenge_name=challenge_name, default_warmup_iterations=default_iterations, default_iterations=default_iterations,\n"
+      "                                  default_warmup_time_period=default_warmup_time_period, default_time_period=default_time_period,\n"
+      "                                  default_ramp_up_time_period=default_ramp_up_time_period, completed_by_name=completed_by)\n"
+      "        tasks = [parse(t) for t in self._r(ops_spec, \"tasks\", error_ctx=\"parallel\")]\n", "O10.2"),
+    V("sub-tasks parsed through a local helper function and map(...)", "keep", _L, _SUBTASKS_OLD,
+      "        def parse(task):\n            return self.parse_task(task, ops, challenge_name, default_warmup_iterations, default_iterations, default_warmup_time_period, default_time_period,\n"
+      "                                   default_ramp_up_time_period, completed_by)\n\n        tasks = list(map(parse, self._r(ops_spec, \"tasks\", error_ctx=\"parallel\")))\n"),
+    V("sub-tasks parsed through a local helper function that swaps two defaults", "break", _L, _SUBTASKS_OLD,
+      "        def parse(task):\n            return self.parse_task(task, ops, challenge_name, default_warmup_iterations, default_iterations, default_time_period, default_warmup_time_period,\n"
+      "                                   default_ramp_up_time_period, completed_by)\n\n        tasks = list(map(parse, self._r(ops_spec, \"tasks\", error_ctx=\"parallel\")))\n", "O10.2"),
+    V("sub-tasks parsed through a local helper function, the list reversed by map over reversed(...)", "break", _L, _SUBTASKS_OLD,
+      "        def parse(task):\n            return self.parse_task(task, ops, challenge_name, default_warmup_iterations, default_iterations, default_warmup_time_period, default_time_period,\n"
+      "                                   default_ramp_up_time_period, completed_by)\n\n        tasks = list(map(parse, reversed(self._r(ops_spec, \"tasks\", error_ctx=\"parallel\"))))\n", "O10.2"),
+    V("include-in-reporting default set with dict.setdefault", "keep", _L,
+      "            if \"include-in-reporting\" not in params:\n                params[\"include-in-reporting\"] = not op.admin_op\n",
+      "            params.setdefault(\"include-in-reporting\", not op.admin_op)\n"),
 ]
